@@ -64,7 +64,7 @@ func init() {
 
 func genCases(seed int64, tier string) []core.Case {
 	rng := rand.New(rand.NewSource(seed*104729 + 4))
-	nf, ng, nc, per := 16, 16, 16, 250
+	nf, ng, nc, per := 16, 16, 16, 500
 	if tier == "thorough" {
 		nf, ng, nc, per = 160, 320, 320, 1000
 	}
@@ -106,15 +106,15 @@ func inputRng(d caseData, i int) *rand.Rand {
 
 func post(a *core.Agg) string {
 	need := map[string]int64{
-		"flags_inputs_with_collisions":      200,
-		"flags_paths_compared":              5000,
-		"grammar_exprs_with_escape":         500,
-		"grammar_exprs_with_index":          500,
-		"grammar_exprs_with_typed_literal":  500,
-		"charts_null_deletions_checked":     200,
-		"charts_scopes_compared":            2000,
-		"charts_aliasing_probes":            500,
-		"flags_multidoc_files":              100,
+		"flags_inputs_with_collisions":     200,
+		"flags_paths_compared":             5000,
+		"grammar_exprs_with_escape":        500,
+		"grammar_exprs_with_index":         500,
+		"grammar_exprs_with_typed_literal": 500,
+		"charts_null_deletions_checked":    200,
+		"charts_scopes_compared":           2000,
+		"charts_aliasing_probes":           500,
+		"flags_multidoc_files":             100,
 	}
 	for k, min := range need {
 		if a.Stats[k] < min {
